@@ -1,18 +1,20 @@
 #!/bin/bash
 # Full .vo build of the table-independent Coq development (never -vos/-vok).
-set -e
-cd "$(dirname "$0")/coq"
+# usage: setup.sh [target.vo ...]   (no target = everything)
+cd "$(dirname "$0")/coq" || exit 2
+exec 9>.lock; flock 9
 {
   echo "-Q theories TL"
   find theories -name '*.v' | sort
 } > _CoqProject.new
 if ! cmp -s _CoqProject.new _CoqProject 2>/dev/null; then
   mv _CoqProject.new _CoqProject
-  coq_makefile -f _CoqProject -o Makefile > /dev/null
+  coq_makefile -f _CoqProject -o Makefile > /dev/null || exit 2
 else
   rm -f _CoqProject.new
-  [ -f Makefile ] || coq_makefile -f _CoqProject -o Makefile > /dev/null
+  [ -f Makefile ] || coq_makefile -f _CoqProject -o Makefile > /dev/null || exit 2
 fi
-timeout 1500 make -j16 2>&1 | grep -v '^COQDEP\|^COQC\|^make' || true
-# make's status, not grep's
-timeout 1500 make -j16 > /dev/null 2>&1
+timeout 1700 make -j16 "$@" > .make.log 2>&1
+rc=$?
+grep -v '^COQDEP\|^COQC\|^make\|^CLEAN\|^ROCQ' .make.log | head -60
+exit $rc
